@@ -49,7 +49,7 @@ ANG_PLUS_PI_SOURCE = math.nextafter(-PI, -math.inf)  # the one float the wrap ma
 
 def ANG(tier, seed, level=None):
     g = jit(seed, "ANG", [0.3, 2.0, 3.1], rel=0.01)
-    out = [0.0, g[0], -g[0], PI / 2, -PI / 2, g[1], -g[1], g[2], -g[2], PI, ANG_PLUS_PI_SOURCE]
+    out = [0.0, g[0], -g[0], PI / 2, -PI / 2, g[1], -g[1], g[2], -g[2], PI, ANG_PLUS_PI_SOURCE, 2e-3]
     if tier == "thorough" or level == "full":
         out += [PI / 4, -PI / 4, 1.0, -1.0, 1e-9, -1e-9, PI - 1e-6, -(PI - 1e-6), 3.5, -7.0, 1e3, -1e3, 1e6, -1e6]
     return out
@@ -109,6 +109,7 @@ def Q(tier, seed, level=None):
         g1,
         [-x for x in g1],
         unit(jit(seed, "Q180", [2.0, -3.0, 6.0]) + [0.0]),
+        unit(jit(seed, "Qsmall", [1e-3, -2e-3, 1.5e-3]) + [1.0]),  # small but non-zero rotation (defeats "isclose(w, 1)" shortcuts)
     ]
     if tier == "thorough" or level == "full":
         seen = {tuple(q) for q in out}
